@@ -1316,7 +1316,143 @@ func checkC18(in *exInput) []exFinding {
 	if d := exDuplicates(sharedLoads); len(d) > 0 {
 		fs = append(fs, exFinding{Shape: "duplicate-load", What: "with a cache reused across expansions, a document is requested again", Obs: d})
 	}
+	if !abs {
+		fs = append(fs, checkC18Rooted(g, s, subsets, preload)...)
+	}
 	return exFirstPerShape(fs)
+}
+
+// exExpandRootedWithCache: the entry points that take the root as a value (ExpandSchema, ExpandParameterWithRoot,
+// ExpandResponseWithRoot) and a cache; they have no loader option, documents come from the package-level loader.
+func exExpandRootedWithCache(g *exGraph, op string, element json.RawMessage, cache spec.ResolutionCache) *exCacheRun {
+	r := &exCacheRun{}
+	lg := &exLoadLog{}
+	exGlobalLoader.Store(exMakeLoader(g.Docs, g.Missing, lg))
+	r.timeout, r.pan = exGuard(func() {
+		var root map[string]interface{}
+		if err := json.Unmarshal(g.Docs[g.Root], &root); err != nil {
+			r.err = err.Error()
+			return
+		}
+		var v interface{}
+		var err error
+		switch op {
+		case "expand_schema":
+			x := new(spec.Schema)
+			if err = json.Unmarshal(element, x); err == nil {
+				if cache == nil {
+					err = spec.ExpandSchema(x, root, nil)
+				} else {
+					err = spec.ExpandSchema(x, root, cache)
+				}
+			}
+			v = x
+		case "expand_param":
+			x := new(spec.Parameter)
+			if err = json.Unmarshal(element, x); err == nil {
+				if cache == nil {
+					err = spec.ExpandParameterWithRoot(x, root, nil)
+				} else {
+					err = spec.ExpandParameterWithRoot(x, root, cache)
+				}
+			}
+			v = x
+		case "expand_response":
+			x := new(spec.Response)
+			if err = json.Unmarshal(element, x); err == nil {
+				if cache == nil {
+					err = spec.ExpandResponseWithRoot(x, root, nil)
+				} else {
+					err = spec.ExpandResponseWithRoot(x, root, cache)
+				}
+			}
+			v = x
+		}
+		if err != nil {
+			r.err = err.Error()
+			return
+		}
+		r.out, _ = json.Marshal(v)
+	})
+	r.loads = lg.list()
+	return r
+}
+
+// checkC18Rooted: the same three cache states through the entry points that take the root as a value.  The element
+// names the root document by its URL, so that every document of the graph - the root's own file included - is an
+// external document for the call and goes through the cache.
+func checkC18Rooted(g *exGraph, s exStore, subsets [][]string, preload func([]string) *exMapCache) []exFinding {
+	var fs []exFinding
+	bad := func(r *exCacheRun) bool { return r.timeout || r.pan != "" }
+	sp := s.with(exPseudoRoot, s[g.Root])
+	shared := newExMapCache()
+	var sharedLoads []string
+	for _, ec := range exElementCases(g) {
+		if ec.Form != "ref" {
+			continue
+		}
+		var holder map[string]string
+		if json.Unmarshal(ec.Element, &holder) != nil || !strings.HasPrefix(holder["$ref"], "#") {
+			continue
+		}
+		el, _ := json.Marshal(map[string]string{"$ref": g.Root + holder["$ref"]})
+		kind := exOpKind[ec.Op]
+		same := func(a, b *exCacheRun) bool {
+			if a.err != "" || b.err != "" {
+				return (a.err != "") == (b.err != "")
+			}
+			if g.Acyclic {
+				return bytes.Equal(a.out, b.out)
+			}
+			return exJSON(sp.unfold(exPseudoRoot, exDecode(a.out), kind, exDepth)) == exJSON(sp.unfold(exPseudoRoot, exDecode(b.out), kind, exDepth))
+		}
+		what := func(state string) string {
+			return fmt.Sprintf("%s with a root value: %s changes the expansion of %s", ec.Op, state, el)
+		}
+		base := exExpandRootedWithCache(g, ec.Op, el, nil)
+		if bad(base) {
+			continue
+		}
+		fresh := exExpandRootedWithCache(g, ec.Op, el, newExMapCache())
+		if !bad(fresh) {
+			if !same(base, fresh) {
+				fs = append(fs, exFinding{Shape: exShape("cache-changes-result:rooted", g, false), What: what("a fresh cache"), Obs: exClip(string(fresh.out)+fresh.err, 1200), Exp: exClip(string(base.out)+base.err, 1200)})
+			}
+			if d := exDuplicates(fresh.loads); len(d) > 0 {
+				fs = append(fs, exFinding{Shape: "duplicate-load:rooted", What: ec.Op + " with a root value and a fresh cache: a document is requested twice while expanding " + string(el), Obs: fresh.loads})
+			}
+		}
+		for _, sub := range subsets {
+			pre := exExpandRootedWithCache(g, ec.Op, el, preload(sub))
+			if bad(pre) {
+				continue
+			}
+			if !same(base, pre) {
+				fs = append(fs, exFinding{Shape: exShape("cache-changes-result:rooted", g, false), What: what(fmt.Sprintf("a cache pre-loaded with %v", sub)), Obs: exClip(string(pre.out)+pre.err, 1200), Exp: exClip(string(base.out)+base.err, 1200)})
+			}
+			have := map[string]bool{}
+			for _, u := range sub {
+				have[u] = true
+			}
+			for _, u := range pre.loads {
+				if have[u] {
+					fs = append(fs, exFinding{Shape: "preloaded-requested:rooted", What: ec.Op + " with a root value: a document present in the supplied cache is requested from the loader", Obs: u})
+				}
+			}
+		}
+		re := exExpandRootedWithCache(g, ec.Op, el, shared)
+		if bad(re) {
+			continue
+		}
+		sharedLoads = append(sharedLoads, re.loads...)
+		if !same(base, re) {
+			fs = append(fs, exFinding{Shape: exShape("cache-changes-result:rooted", g, false), What: what("a cache reused from earlier expansions against the same root"), Obs: exClip(string(re.out)+re.err, 1200), Exp: exClip(string(base.out)+base.err, 1200)})
+		}
+	}
+	if d := exDuplicates(sharedLoads); len(d) > 0 {
+		fs = append(fs, exFinding{Shape: "duplicate-load:rooted", What: "with a root value and a cache reused across expansions, a document is requested again", Obs: d})
+	}
+	return fs
 }
 
 // ---------------------------------------------------------------------------------------------
@@ -1829,6 +1965,12 @@ type exConcEnv struct {
 	shared *exGraph
 	typed  *spec.Swagger
 	cache  *exMapCache
+	opts   *spec.ExpandOptions // one options value (location of the shared root, a loader) that every goroutine passes to its calls
+}
+
+func newExConcEnv(shared *exGraph, typed *spec.Swagger) *exConcEnv {
+	return &exConcEnv{shared: shared, typed: typed, cache: newExMapCache(),
+		opts: &spec.ExpandOptions{RelativeBase: shared.Root, PathLoader: exMakeLoader(shared.Docs, nil, &exLoadLog{})}}
 }
 
 func (e *exConcEnv) run(c *exCall) *exOutcome {
@@ -1862,6 +2004,28 @@ func (e *exConcEnv) run(c *exCall) *exOutcome {
 		}
 		b, _ := json.Marshal(sch)
 		return &exOutcome{Out: b}
+	case "shared_opts_expand", "shared_opts_spec":
+		// distinct in-memory documents, no cache; the options are configuration the goroutines have in common
+		var v interface{}
+		var err error
+		if c.Op == "shared_opts_spec" {
+			sw := new(spec.Swagger)
+			if err = json.Unmarshal(e.shared.Docs[e.shared.Root], sw); err == nil {
+				err = spec.ExpandSpec(sw, e.opts)
+			}
+			v = sw
+		} else {
+			sch := new(spec.Schema)
+			if err = json.Unmarshal(c.Element, sch); err == nil {
+				err = spec.ExpandSchemaWithBasePath(sch, nil, e.opts)
+			}
+			v = sch
+		}
+		if err != nil {
+			return &exOutcome{Err: true, ErrText: err.Error()}
+		}
+		b, _ := json.Marshal(v)
+		return &exOutcome{Out: b}
 	}
 	return exExecLocal(c)
 }
@@ -1882,7 +2046,10 @@ func exConcSame(e *exConcEnv, c *exCall, want, got *exOutcome) string {
 		return ""
 	}
 	switch c.Op {
-	case "shared_expand":
+	case "shared_opts_spec":
+		cc := e.shared.call("expand_spec", exOpts{})
+		return exSameOutcome(cc, &exOutcome{Out: want.Out, Loads: []string{}}, &exOutcome{Out: got.Out, Loads: []string{}})
+	case "shared_expand", "shared_opts_expand":
 		s := e.shared.store()
 		if exJSON(s.unfold(e.shared.Root, exDecode(want.Out), exSchema, exDepth)) == exJSON(s.unfold(e.shared.Root, exDecode(got.Out), exSchema, exDepth)) {
 			return ""
@@ -1894,7 +2061,7 @@ func exConcSame(e *exConcEnv, c *exCall, want, got *exOutcome) string {
 }
 
 func checkC17(in *exConcInput) []exFinding {
-	env := &exConcEnv{shared: in.Shared, typed: new(spec.Swagger), cache: newExMapCache()}
+	env := newExConcEnv(in.Shared, new(spec.Swagger))
 	if err := json.Unmarshal(in.Shared.Docs[in.Shared.Root], env.typed); err != nil {
 		return []exFinding{{Shape: "bad-input", What: err.Error()}}
 	}
@@ -1936,7 +2103,7 @@ func checkC17(in *exConcInput) []exFinding {
 	// sequential reference: each task alone, made after the concurrent phase so that the goroutines
 	// meet whatever lazily initialised state the library has in its cold state (the shared cache
 	// starts empty in both runs)
-	seqEnv := &exConcEnv{shared: in.Shared, typed: env.typed, cache: newExMapCache()}
+	seqEnv := newExConcEnv(in.Shared, env.typed)
 	want := make([]*exOutcome, len(in.Tasks))
 	for i, c := range in.Tasks {
 		want[i] = seqEnv.run(c)
@@ -1948,7 +2115,7 @@ func checkC17(in *exConcInput) []exFinding {
 			shape := "concurrent-result-differs"
 			if len(c.Docs) > 0 { // an outcome that depends on map order on a graph with a known defect
 				shape = exShape(shape, exCallGraph(c), c.Opts.Abs)
-			} else if c.Op == "shared_expand" {
+			} else if strings.HasPrefix(c.Op, "shared_") {
 				shape = exShape(shape, in.Shared, c.Opts.Abs)
 			}
 			fs = append(fs, exFinding{Shape: shape, What: fmt.Sprintf("goroutine %d, task %d (%s): the result differs from the sequential reference", r.g, r.task, exCallLabel(c)), Obs: d})
@@ -1991,8 +2158,10 @@ func oracleC17(r *rng, n int, tier string) *oracleResult {
 			for _, ec := range exElementCases(shared) {
 				if ec.Op == "expand_schema" && ec.Form == "ref" {
 					sharedTasks = append(sharedTasks, add(&exCall{Op: "shared_expand", Element: ec.Element, Opts: exOpts{Abs: rr.chance(1, 2)}}))
+					sharedTasks = append(sharedTasks, add(&exCall{Op: "shared_opts_expand", Element: ec.Element}))
 				}
 			}
+			sharedTasks = append(sharedTasks, add(&exCall{Op: "shared_opts_spec"}))
 			for _, rc := range exResolveCases(rr, shared, 4) {
 				c := shared.call("resolve", exOpts{})
 				c.Kind, c.Ref, c.RootMode = rc.Kind, rc.Ref, "none"
